@@ -952,10 +952,16 @@ example : (run (init 1 4 2) [.sender 0 false 0, .sender 1 false 0, .sender 0 fal
 obligations fail when a memory order is weakened, a counter or the flag word stops being `_Atomic`, an atomic call is
 replaced by a plain access or split into a load and a store, or the order / branch structure of the accesses changes. -/
 
-/-- access sites (kind, object, memory order, branch context) of every function of messageq.c and of
-    `messageq_empty`, in order, and the declared types of `messageq_t`'s fields, equal the table the model was
-    written against -/
-theorem skeleton_matches_messageq : Librfn.Gen.Skeleton.messageq = Librfn.Model.MessageqConc.skeleton := by decide
+/-- fields of `messageq_t` written once by `messageq_init` (or the static initialiser), before any sender exists -/
+def mqConfig : List String := ["mq->basep", "mq->msg_len", "mq->queue_len"]
+
+/-- the shared accesses (operation, object, memory orders, conditional / in a loop) of every function of messageq.c and of
+    `messageq_empty`, in order, and the declared types of `messageq_t`'s fields, are those of the table the model was written
+    against; the configuration fields are written by `messageq_init` only (`Librfn.Skeleton.CUnit.core`) -/
+theorem skeleton_matches_messageq :
+    Librfn.Gen.Skeleton.messageq.core mqConfig = Librfn.Model.MessageqConc.skeleton.core mqConfig ∧
+    Librfn.Gen.Skeleton.messageq.fields = Librfn.Model.MessageqConc.skeleton.fields ∧
+    Librfn.Gen.Skeleton.messageq.configNeverWritten mqConfig ["messageq_init"] = true := by decide
 
 /-- every atomic operation of the message queue is `seq_cst` (the interleaving semantics of `MqInv` rests on it) -/
 theorem mq_ord_all_seqcst : Librfn.Gen.Skeleton.messageq.allSeqCst = true := by decide
